@@ -1,9 +1,13 @@
 /- C13 driver: runs the block-by-block reference interpreter from several initial states on the
 program of each case and checks the executable γ-membership of every register against the states the
 real pointer inference reported; checks the model of the NULL-window decision against
-`State::check_def_for_null_dereferences`. -/
+`State::check_def_for_null_dereferences`; checks the PI-lite models (`C13/Data.lean`: `DataDomain`
+arithmetic, `C13/Eval.lean`: `State::eval`) against the real functions — structurally, and the proved
+soundness statement on the implementation output with sampled members and identifier valuations. -/
 import CweModel.Base.Proto
 import CweModel.C13.Model
+import CweModel.C13.Eval
+import CweModel.C12.Model
 open Lean CweModel.Proto CweModel.IR CweModel.Itv
 
 namespace CweModel.C13
@@ -178,11 +182,214 @@ def handleNull (j : Json) : Except String String := do
     else return s!"ok null-{tag} {cls} interval-compared"
   | _, _, _ => return s!"ok null-{tag} {cls}"
 
+/-! ## PI-lite streams -/
+
+def intJ (j : Json) : Except String Int :=
+  match j with
+  | .str s => match s.toInt? with
+    | some v => pure v
+    | none => throw s!"bad integer {s}"
+  | _ => j.getInt?
+
+def optIntJ (j : Json) (k : String) : Except String (Option Int) :=
+  match j.getObjVal? k with
+  | .ok .null => pure none
+  | .ok v => some <$> intJ v
+  | .error _ => pure none
+
+def parseDom (j : Json) : Except String IntervalDomain := do
+  return { interval := { w := ← natF j "w", start := ← intJ (← field j "s"), stop := ← intJ (← field j "e"),
+                         stride := ← natF j "st" },
+           upper := ← optIntJ j "up", lower := ← optIntJ j "lo", delay := ← natF j "d" }
+
+def parseDData (j : Json) : Except String DData := do
+  let rel ← mapM' (fun p => do
+    let a ← p.getArr?
+    return ((← a[0]!.getNat?), (← parseDom a[1]!))) (← arrF j "rel")
+  let abs ← match j.getObjVal? "abs" with
+    | .ok .null => pure none
+    | .ok a => (some <$> parseDom a)
+    | .error _ => pure none
+  return { size := ← natF j "size", rel := rel, abs := abs, top := ← boolF j "top" }
+
+def showOptI : Option Int → String
+  | some v => toString v
+  | none => "-"
+
+def showDom (a : IntervalDomain) : String :=
+  s!"{a.interval.w}:[{a.interval.start},{a.interval.stop}]s{a.interval.stride}u{showOptI a.upper}l{showOptI a.lower}d{a.delay}"
+
+def showDData (d : DData) : String :=
+  let r := d.rel.map fun (i, I) => s!"id{i}+{showDom I}"
+  let a := match d.abs with | some I => [showDom I] | none => []
+  s!"{d.size}" ++ "{" ++ ",".intercalate (r ++ a ++ (if d.top then ["T"] else [])) ++ "}"
+
+def wfDomB (a : IntervalDomain) : Bool :=
+  decide a.interval.WF &&
+  (match a.upper with | some u => decide (InRange a.interval.w u) | none => true) &&
+  (match a.lower with | some l => decide (InRange a.interval.w l) | none => true) &&
+  decide (a.delay < 2 ^ 64)
+
+/-- executable `DData.WF` -/
+def wfDataB (d : DData) : Bool :=
+  decide (0 < d.size) &&
+  (match d.abs with | some a => wfDomB a && a.interval.w == 8 * d.size | none => true) &&
+  d.rel.all fun p => wfDomB p.2 && p.2.interval.w == 8 * d.size
+
+/-- members used by the spec: all of them if there are at most `cap`, else the ones next to the bounds
+and some in between -/
+def sampleItv (I : Interval) (cap : Nat) : List Int :=
+  if I.stride = 0 then [I.start]
+  else
+    let n := ((I.stop - I.start) / (I.stride : Int)).toNat
+    let idx : List Nat :=
+      if n + 1 ≤ cap then List.range (n + 1)
+      else [0, 1, n, n - 1, n / 2, n / 3 + 1]
+    idx.map fun (i : Nat) => I.start + (i : Int) * (I.stride : Int)
+
+/-- sampled members of `γρ d` -/
+def membersOf (ρ : Nat → Int) (d : DData) (cap : Nat) : List Bv :=
+  let w := 8 * d.size
+  let mk (x : Int) : Bv := bvOfInt w x
+  let abs := match d.abs with | some a => (sampleItv a.interval cap).map mk | none => []
+  let rel := d.rel.flatMap fun (i, o) => (sampleItv o.interval (cap / 2 + 1)).map fun x => mk (ρ i + x)
+  let top := if d.top then [mk 0, mk 1, mk (-1), mk (smin w), mk 0x1234567] else []
+  abs ++ rel ++ top
+
+/-- identifier valuations of the spec evaluation; identifier `gid` (global memory) has base 0 -/
+def rhos (gid : Nat) : List (Nat → Int) :=
+  [fun i => if i = gid then 0 else 0x7ffd00000000 + 0x1000 * (i : Int),
+   fun i => if i = gid then 0 else 8 * (i : Int) + 8,
+   fun i => if i = gid then 0 else 2 ^ 63 - 5 + (i : Int),
+   fun i => if i = gid then 0 else -(((i : Int) + 1) * 0x3fff_ffff_fff1)]
+
+def showBv (b : Bv) : String := s!"{b.w}:{b.toInt}"
+
+/-- first counterexample to the soundness statement of a binary operation on the value `r` -/
+def specBinData (gid : Nat) (op : BinOpType) (a b r : DData) : Option String :=
+  (rhos gid).findSome? fun ρ =>
+    (membersOf ρ a 6).findSome? fun x =>
+      (membersOf ρ b 6).findSome? fun y =>
+        match Ref.binOp op x y with
+        | .val z => if r.contains ρ z then none else some s!"{showBv x},{showBv y}->{showBv z}"
+        | _ => none
+
+def specUnData (gid : Nat) (f : Bv → Res) (a r : DData) : Option String :=
+  (rhos gid).findSome? fun ρ =>
+    (membersOf ρ a 8).findSome? fun x =>
+      match f x with
+      | .val z => if r.contains ρ z then none else some s!"{showBv x}->{showBv z}"
+      | _ => none
+
+def parseBinOpName (s : String) : Except String BinOpType :=
+  match BinOpType.all.find? (·.name == s) with | some o => pure o | none => throw s!"binop {s}"
+def parseUnOpName (s : String) : Except String UnOpType :=
+  match UnOpType.all.find? (·.name == s) with | some o => pure o | none => throw s!"unop {s}"
+def parseCastOpName (s : String) : Except String CastOpType :=
+  match CastOpType.all.find? (·.name == s) with | some o => pure o | none => throw s!"cast {s}"
+
+def dataShape (d : DData) : String :=
+  match d.rel.length, d.abs.isSome, d.top with
+  | 0, false, false => "empty" | 0, false, true => "top" | 0, true, false => "abs" | 0, true, true => "abs+top"
+  | 1, false, false => "ptr" | 1, _, _ => "ptr+x" | _, _, _ => "ptrs"
+
+def verdictD (cls : String) (model impl : DData) (inHyp : Bool) (specErr : Option String) (tags : String) : String :=
+  match specErr with
+  | some e => s!"spec class={cls} expected=member:{e} impl={showDData impl} model={showDData model}"
+  | none =>
+    if model != impl then s!"diff class={cls} model={showDData model} impl={showDData impl}"
+    else s!"ok {tags}" ++ (if inHyp then " constrained" else " modelonly")
+
+def handleDd (j : Json) : Except String String := do
+  let opJ ← field j "op"
+  let kind ← strF opJ "k"
+  let a ← parseDData (← field j "a")
+  let implJ ← field j "impl"
+  if let .ok m := implJ.getStr? then
+    return s!"spec class=dd-impl-{(m.splitOn ":").headD "panic"}:{kind} expected=value impl={m.take 100}"
+  let impl ← parseDData implJ
+  match kind with
+  | "bin" =>
+    let op ← parseBinOpName (← strF opJ "op")
+    let b ← parseDData (← field j "b")
+    let model := DData.binOp op a b
+    let inHyp := wfDataB a && wfDataB b && decide (C12.binSizesOk op a.size b.size)
+    let err := if inHyp then specBinData 99 op a b impl else none
+    return verdictD s!"dd-bin:{op.name}:{dataShape a}:{dataShape b}" model impl inHyp err s!"dd-bin {op.name}"
+  | "un" =>
+    let op ← parseUnOpName (← strF opJ "op")
+    let model := DData.unOp op a
+    let inHyp := wfDataB a && decide (C12.unSizeOk op a.size)
+    let err := if inHyp then specUnData 99 (Ref.unOp op) a impl else none
+    return verdictD s!"dd-un:{op.name}:{dataShape a}" model impl inHyp err s!"dd-un {op.name}"
+  | "cast" =>
+    let op ← parseCastOpName (← strF opJ "op")
+    let size ← natF opJ "size"
+    let model := DData.cast op size a
+    let fits := match op with
+      | .PopCount | .LzCount => decide ((8 * a.size : Int) ≤ smax (8 * size))
+      | _ => true
+    let inHyp := wfDataB a && decide (0 < size) && decide (C12.castSizeOk op size a.size) && fits
+    let err := if inHyp then specUnData 99 (Ref.cast op size) a impl else none
+    return verdictD s!"dd-cast:{op.name}:{dataShape a}" model impl inHyp err s!"dd-cast {op.name}"
+  | "sub" =>
+    let low ← natF opJ "low"
+    let size ← natF opJ "size"
+    let model := DData.subpiece low size a
+    let inHyp := wfDataB a && decide (0 < size) && decide (low + size ≤ a.size)
+    let err := if inHyp then specUnData 99 (Ref.subpieceOp low size) a impl else none
+    let noop := low == 0 && size == a.size
+    return verdictD s!"dd-subpiece:{if noop then "noop" else "proper"}:{dataShape a}" model impl inHyp err
+      s!"dd-subpiece{if noop then "-noop" else ""}"
+  | k => throw s!"unknown dd kind {k}"
+
+def handleEv (j : Json) : Except String String := do
+  let e ← parseExpression (← field j "expr")
+  let gid ← natF j "gid"
+  let seed ← natF j "seed"
+  let globals ← mapM' (fun g => g.getNat?) (← arrF j "globals")
+  let regs ← mapM' (fun r => do
+    let a ← r.getArr?
+    let v : Variable := { name := ← a[0]!.getStr?, size := ← a[1]!.getNat? }
+    return (v, ← parseDData a[2]!)) (← arrF j "regs")
+  let implJ ← field j "impl"
+  let kind := exprKind e
+  if let .ok m := implJ.getStr? then
+    return s!"spec class=ev-impl-{(m.splitOn ":").headD "panic"}:{kind} expected=value impl={m.take 100}"
+  let impl ← parseDData implJ
+  let st : St := { regs := regs, globals := globals, gid := gid }
+  let model := st.eval e
+  let inHyp := decide (C12.WellSized e) && regs.all fun (v, d) => wfDataB d && d.size == v.size
+  let mut err : Option String := none
+  let mut evaluated := 0
+  if inHyp then
+    for k in List.range 8 do
+      let ρ := ((rhos gid)[k % 4]?).getD (fun _ => 0)
+      let σ0 : Sem.State := { seed := seed + k }
+      -- pick a member of every register's value; a register without members makes the state unsatisfiable
+      let picks := regs.zipIdx.map fun ((v, d), idx) =>
+        let ms := membersOf ρ d 6
+        (v, ms[(k * 7 + idx * 3 + seed) % ms.length]?)
+      if picks.all (·.2.isSome) then
+        let σ := picks.foldl (fun s p => match p.2 with | some x => s.setReg p.1 x | none => s) σ0
+        match Sem.eval σ e with
+        | some v =>
+          evaluated := evaluated + 1
+          if !impl.contains ρ v && err.isNone then
+            let rs := picks.map fun p => s!"{p.1.name}={(p.2.map showBv).getD "?"}"
+            err := some s!"{showBv v}@{" ".intercalate rs}"
+        | none => pure ()
+  return verdictD s!"ev:{kind}" model impl inHyp err
+    (s!"ev {kind}" ++ (if evaluated > 0 then " concretely-evaluated" else "") ++
+      (if impl.rel.any (·.1 == gid) then " global-pointer" else ""))
+
 def handleE (line : String) : Except String String := do
   let j ← Json.parse line
   match (← strF j "q") with
   | "pi" => handlePi j
   | "null" => handleNull j
+  | "dd" => handleDd j
+  | "ev" => handleEv j
   | q => throw s!"unknown case kind {q}"
 
 end CweModel.C13
